@@ -582,6 +582,14 @@ func (lc *linCtx) lenOf(v ssa.Value) lin {
 		if isStringOrBytes(x.Type()) && isStringOrBytes(x.X.Type()) {
 			return lc.lenOf(x.X)
 		}
+		// []rune(string): the number of runes (the value utf8.RuneCountInString gives)
+		if sl, ok := x.Type().Underlying().(*types.Slice); ok {
+			if eb, ok := sl.Elem().Underlying().(*types.Basic); ok && eb.Kind() == types.Int32 {
+				if sb, ok := x.X.Type().Underlying().(*types.Basic); ok && sb.Info()&types.IsString != 0 {
+					return linAtom("runes(" + lc.canon(x.X) + ")")
+				}
+			}
+		}
 	case *ssa.Call:
 		cc := x.Common()
 		if isPkgFunc(cc, "math/rand", "Perm") {
@@ -815,6 +823,9 @@ func (lc *linCtx) of1(v ssa.Value) lin {
 			case "AliLength":
 				return linAtom("AliLength(" + lc.canon(recv) + ")")
 			}
+		}
+		if isPkgFunc(cc, "unicode/utf8", "RuneCountInString") && len(cc.Args) == 1 {
+			return linAtom("runes(" + lc.canon(cc.Args[0]) + ")")
 		}
 		if isPkgFunc(cc, "math/rand", "Intn") {
 			atom := v.Name() + "@" + shortFn(v)
